@@ -12,11 +12,11 @@ let hex_of_bytes (l : n list) : string =
   List.iter (fun x -> Buffer.add_string b (Printf.sprintf "%02x" (int_of_n x))) l;
   Buffer.contents b
 
-let table : (int, stmt * stmt) Hashtbl.t Lazy.t = lazy (let h = Hashtbl.create 512 in List.iter (fun (i, b) -> Hashtbl.replace h (int_of_n i) b) block_table; h)
+let table = lazy (let h = Hashtbl.create 512 in List.iter (fun (i, b) -> Hashtbl.replace h (int_of_n i) b) block_table; h)
 
-let parse_ver (s : string) : version =
+let parse_ver (s : string) =
   match String.split_on_char ',' s with
-  | [f; u; st] -> { vfile = z_of_int (int_of_string ("0x" ^ f)); vuser = z_of_int (int_of_string u); vstream = z_of_int (int_of_string st) }
+  | [f; u; st] -> syncir_ver (z_of_int (int_of_string ("0x" ^ f))) (z_of_int (int_of_string u)) (z_of_int (int_of_string st))
   | _ -> failwith "ver"
 
 let str_tr (l : n list) = String.concat "," (List.map str_of_n l)
@@ -31,19 +31,19 @@ let run_case (c : case) : string =
     let (init, prog) = Hashtbl.find (Lazy.force table) tid in
     let v = parse_ver (get c "ver") in
     let input = bytes_of_hex (get c "bytes") in
-    let st0 = (match run Wr v hs_empty init (empty_state input) with Ok s -> { s with out = []; trace = [] } | _ -> empty_state input) in
-    (match run Rd v hs_empty prog st0 with
+    let st0 = (match syncir_run syncir_wr v hs_empty init (syncir_fresh input) with Ok s -> syncir_clear_out s | _ -> syncir_fresh input) in
+    (match syncir_run syncir_rd v hs_empty prog st0 with
      | Ok st ->
-       let consumed = (match st.remaining with N0 -> true | _ -> false) && not st.eof in
-       let rtrace = str_tr (transfers st) in
-       (match run Wr v hs_empty prog (rewind st []) with
+       let consumed = syncir_consumed st in
+       let rtrace = str_tr (syncir_transfers st) in
+       (match syncir_run syncir_wr v hs_empty prog (syncir_rewind st []) with
         | Ok st2 ->
-          let o1 = output st2 in
+          let o1 = syncir_output st2 in
           (* write the written object once more: in-place effects of the first write must not show *)
-          let idem = (match run Wr v hs_empty prog (rewind st2 []) with
-            | Ok st3 -> if output st3 = o1 then "1" else "0"
+          let idem = (match syncir_run syncir_wr v hs_empty prog (syncir_rewind st2 []) with
+            | Ok st3 -> if syncir_output st3 = o1 then "1" else "0"
             | _ -> "F") in
-          "M=consumed=" ^ (if consumed then "1" else "0") ^ " rtrace=" ^ rtrace ^ " wtrace=" ^ str_tr (transfers st2)
+          "M=consumed=" ^ (if consumed then "1" else "0") ^ " nlog=" ^ str_of_n (syncir_nlog st) ^ " rtrace=" ^ rtrace ^ " wtrace=" ^ str_tr (syncir_transfers st2)
           ^ " idem=" ^ idem ^ " out=" ^ hex_of_bytes o1
         | Fault -> "M=WFAULT rtrace=" ^ rtrace
         | OutOfFuel -> "M=WOUTOFFUEL")
@@ -55,9 +55,9 @@ let run_case (c : case) : string =
     let (init, prog) = Hashtbl.find (Lazy.force table) tid in
     let v = parse_ver (get c "ver") in
     let input = bytes_of_hex (get c "bytes") in
-    let st0 = (match run Wr v hs_empty init (empty_state input) with Ok s -> { s with out = []; trace = [] } | _ -> empty_state input) in
-    (match run Rd v hs_empty prog st0 with
-     | Ok st -> "M=OK eof=" ^ (if st.eof then "1" else "0")
+    let st0 = (match syncir_run syncir_wr v hs_empty init (syncir_fresh input) with Ok s -> syncir_clear_out s | _ -> syncir_fresh input) in
+    (match syncir_run syncir_rd v hs_empty prog st0 with
+     | Ok st -> "M=OK eof=" ^ (if syncir_eof st then "1" else "0")
      | Fault -> "M=RFAULT" | OutOfFuel -> "M=ROUTOFFUEL")
   | _ -> "M=?"
 
